@@ -23,14 +23,18 @@ pub fn run(args: &Args, rep: &mut Report) {
     // structured families: nested parallels completing in every order, histories at every level
     {
         let mut rng = args.rng(12);
-        for d in 0..args.scale(16, 300) {
+        for d in 0..args.scale(24, 450) {
             if crate::report::should_stop() {
                 break;
             }
             let dm = dms[d % dms.len()];
-            let (doc, paths) = if d % 2 == 0 { crate::corpus::history_tree(&mut rng, dm, d) } else { crate::corpus::done_tree(&mut rng, dm, d) };
+            let (doc, paths) = match d % 3 {
+                0 => crate::corpus::history_tree(&mut rng, dm, d),
+                1 => crate::corpus::done_tree(&mut rng, dm, d),
+                _ => crate::corpus::conflict_tree(&mut rng, dm, d),
+            };
             if let Ok(f) = crate::refsim::Flat::from_doc(&doc) {
-                for p in paths.iter().take(3) {
+                for p in paths.iter().take(if d % 3 == 2 { 6 } else { 3 }) {
                     if w.run_one(&doc, &f, p, false) {
                         w.rep.nontrivial_key(&distinct_key(&doc, p));
                     }
